@@ -244,10 +244,26 @@ func downRules(c *an.Ctx, r *runnerRoles, rule string) {
 			}
 		}
 	}
+	// … or a plain map in the same field (guarded by a mutex of its own)
+	var mapStore *ssa.MapUpdate
+	if store == nil {
+		for _, fn := range r.scope {
+			an.EachInstr(fn, func(in ssa.Instruction) {
+				if mu, ok := in.(*ssa.MapUpdate); ok && an.FieldProv(mu.Map) == "TaskRunner.cleanupList" {
+					mapStore, store, f = mu, in, fn
+				}
+			})
+		}
+	}
 	if store == nil {
 		c.Bad(rule, an.Short(f)+":register", f.Pos(), "a resolved context is never registered for cleanup")
 	} else {
-		val := store.(ssa.CallInstruction).Common().Args[2]
+		var val ssa.Value
+		if mapStore != nil {
+			val = mapStore.Value
+		} else {
+			val = store.(ssa.CallInstruction).Common().Args[2]
+		}
 		okVal := false
 		for _, src := range p.DeepSources(val, 2, false) {
 			if strings.Contains(an.FieldProv(src), "TaskRunner.contexts[") {
@@ -412,6 +428,9 @@ func downRules(c *an.Ctx, r *runnerRoles, rule string) {
 				}
 			}
 		}
+	}
+	if !good && mapStore != nil {
+		good = downOverMap(c, fin)
 	}
 	c.Check(good, rule, an.Short(fin)+":down-all", fin.Pos(), "Finish runs Down on every registered context (the Range callback always continues)", "Finish does not run Down on every registered context")
 	// CLI: Finish on all exits
@@ -784,4 +803,94 @@ func hookRoles(p *an.Prog, v ssa.Value) []string {
 		}
 	}
 	return dedup(out)
+}
+
+// downOverMap: Finish, with the cleanup registry kept as a plain map: a range over the map (or over a slice that a
+// range over the map fills with every value) calls Down on the element exactly once on every pass.
+func downOverMap(c *an.Ctx, fin *ssa.Function) bool {
+	everyPass := func(l *an.Loop, effect func(in ssa.Instruction, st *an.State) string, tag string) bool {
+		ex := &an.Explorer{P: c.P, NoReturn: noReturn}
+		l.Bound(ex)
+		ex.Effect = effect
+		entry := l.BodyEntry()
+		if entry == nil {
+			return false
+		}
+		outs := ex.Run(fin, entry, l.Header, nil)
+		if len(outs) == 0 || ex.Exhausted {
+			return false
+		}
+		for _, o := range outs {
+			if !(o.End == "stop" && o.StopBlock == l.Header && count(o.Effects, tag) == 1) {
+				return false
+			}
+		}
+		return true
+	}
+	downOn := func(elems []ssa.Value) func(in ssa.Instruction, st *an.State) string {
+		return func(in ssa.Instruction, st *an.State) string {
+			if cc, ok := an.IsCallTo(in, fnCtxDown); ok {
+				for _, e := range elems {
+					if an.SameValue(cc.Args[0], e) || (st != nil && st.SameRoot(cc.Args[0], e)) {
+						return "down"
+					}
+				}
+			}
+			return ""
+		}
+	}
+	loops := an.Loops(fin)
+	for _, l := range loops {
+		op := l.RangeOperand()
+		if op == nil || an.FieldProv(op) != "TaskRunner.cleanupList" {
+			continue
+		}
+		_, elems := l.RangeKeyValue()
+		if everyPass(l, downOn(elems), "down") {
+			return true
+		}
+		// collected first
+		var cell ssa.Value
+		collects := everyPass(l, func(in ssa.Instruction, st *an.State) string {
+			call, ok := in.(*ssa.Call)
+			if !ok {
+				return ""
+			}
+			if b, ok := call.Call.Value.(*ssa.Builtin); !ok || b.Name() != "append" {
+				return ""
+			}
+			for _, e := range an.VariadicElems(call.Call.Args[1]) {
+				for _, v := range elems {
+					if an.SameValue(e, v) {
+						cell = call
+						return "collect"
+					}
+				}
+			}
+			return ""
+		}, "collect")
+		if !collects || cell == nil {
+			continue
+		}
+		for _, l2 := range loops {
+			op2 := l2.RangeOperand()
+			if l2 == l || op2 == nil || len(l2.Header.Instrs) == 0 || len(l.Header.Instrs) == 0 || !an.Dominates(l.Header.Instrs[0], l2.Header.Instrs[0]) {
+				continue
+			}
+			fed := false
+			for _, src := range an.Sources(op2) {
+				if src == cell {
+					fed = true
+				}
+			}
+			if !fed {
+				continue
+			}
+			_, e2 := l2.RangeKeyValue()
+			if everyPass(l2, downOn(e2), "down") {
+				return true
+			}
+		}
+	}
+	return false
 }
